@@ -271,6 +271,7 @@ func pinnedCases() []pinned {
 		s3.Files[0].Enums = append(s3.Files[0].Enums, &schema.Enum{Name: "Height", Values: []*schema.EnumValue{{Name: "HEIGHT_UNSPECIFIED", Number: 0}, {Name: "HEIGHT_TALL", Number: 1, Custom: "5'6\""}}})
 		req3.Fields = append(req3.Fields, &schema.Field{Name: "height", Number: 2, Kind: schema.KEnum, TypeRef: s3.Pkg + ".Height", Card: schema.Singular})
 		out = append(out, pinned{File: "C12/enum_value_with_quote_refused.json", Doc: &c12Case{Property: "C12", Kind: "valid", Plugin: "protoc-gen-go-http", Schema: s3}})
+		out = append(out, pinned{File: "C13/ts_enum_value_with_quote.json", Doc: &c13Case{Property: "C13", Kind: "ts", Schema: s3}})
 	}
 	{
 		// two RPCs without an explicit path under a base_path: both are published at the base path
